@@ -282,9 +282,10 @@ def check(run):
         distribution=dict(dist), model_mismatches=len(mm), monitor_failures=len(ff),
         samples=[results[0]['spec'], results[len(results) // 2]['spec'], results[-1]['spec']] if results else []))
     run.coverage['trusted_base'] += [
-        'translator tools/gotocoq/ics20hook (go/ast, guards classified by data flow, names irrelevant): statement list of '
-        'Keeper.OnRecvPacket, IBCDenom arguments, message arguments, shape of IBCMiddleware -> Gen/Ics20HookGen.v, normalised '
-        'by Proofs/Ics20Source.v shape_of; obligations C16_source_is_model, C16_source_shape',
+        'translator tools/gotocoq/ics20hook (go/ast): symbolic execution of Keeper.OnRecvPacket, IBCMiddleware and ibc.Module '
+        'callbacks (closures / same-package helpers inlined, nil-ness of errors tracked per path, tests classified by data flow, '
+        'names irrelevant) -> decision trees in Gen/Ics20HookGen.v, flattened and normalised by Proofs/Ics20Source.v shape_of; '
+        'obligations C16_source_is_model, C16_source_shape',
         'hand-written model Model/Ics20.v tied to x/aggregate (middleware, hook, IBCDenom, ConvertCoin for standard tokens) and '
         'to ibc-go core RecvPacket by this differential run (generator bounds what it sees)',
         'harness plumbing: channel transfer/channel-0 written directly into the IBC store over a 09-localhost client (handshake '
